@@ -178,6 +178,7 @@ def run_parse(c, argv):
     else:
         parser = sp.make_parser(c["cfg"])
         parser.add_arguments(cls, dest="config")
+        sp.decoy(c["cfg"])   # a parser constructed later with other settings must not change this one's options
         r = sp.run_outcome(lambda: parser.parse_args(argv))
         inst = getattr(r["value"], "config") if r["o"] == "ok" else None
     if r["o"] == "ok":
